@@ -30,7 +30,9 @@ HOSTILE_TEXTS = ["\\", "\\n\\N", "a\\;b\\,c", "%2C%5C%3B%3A", "\\\\\\", "\\x", "
                  "line1\\nBEGIN:VEVENT\\nEND:VEVENT", "\x7f\x1b", "%", "%2", "\\%2C"]
 HOSTILE_DURATIONS = ["P", "PT", "-P1W1D", "P1Y", "PT1H1D", "P-1D", "P1.5D", "P999999999999D", "+P", "p1d",
                      "PT999999999999999999999S", "-P99999999999W", "P0D", "PT0S", "-PT0S", "P1DT", "P1W2D", "PT1M1H",
-                     "P999999999D", "PT86400S", "P١D", "P1D ", " P1D", "P1DT1H1M1S1", "PT1H30M15.5S"]
+                     "P999999999D", "PT86400S", "P١D", "P1D ", " P1D", "P1DT1H1M1S1", "PT1H30M15.5S",
+                     # the ends of the timedelta range are not symmetric
+                     "-P999999999DT1S", "-P999999999D", "P999999999DT23H59M59S", "-P142857142W6DT1H", "P999999999DT24H"]
 HOSTILE_NUMBERS = ["", "1e400", "NaN", "-", "+", "1_000", "٣", "99999999999999999999999999999999999999", "0x10",
                    "1.5", "-0", "+7", " 7", "7 ", "١٢٣", "1e3", "inf", "−1"]
 HOSTILE_RULES = ["FREQ=DAILY", "FREQ=DAILY;UNTIL=20000101T000000Z", "FREQ=WEEKLY", "FREQ=DAILY;BYMONTH=1,2,3,4,5,6",
